@@ -192,8 +192,13 @@ def check_roundtrip(lx: LayoutExtractor, rep, prefix='C01'):
         rep.check(not p4, R('O4'), key(lay, 'extent'), loc,
                   'bytes emitted = total_length() = bytes consumed = %s' % ext, '; '.join(p4))
         # O9: value conversions are inverse of each other ----------------------------------
+        # (a) decided by constant folding of the two extracted conversion terms at boundary values of the field: the
+        #     attribute value goes through the encoder's expression, the fixed-width padding of the struct field, the
+        #     decoder's expression and the constructor's, and must come back unchanged;  (b) where a term cannot be folded,
+        #     the older shape rules below still apply.
         import ast as _ast
         from .srcmodel import norm as _norm
+        p9a, undecided = conversion_round_trips(lx, lay)
         p9 = []
         dec_node = lay.dec_f.node
         enc_codecs, dec_codecs = set(), set()
@@ -235,6 +240,9 @@ def check_roundtrip(lx: LayoutExtractor, rep, prefix='C01'):
         if enc_codecs and dec_codecs and enc_codecs != dec_codecs and not (enc_codecs <= {'utf-8', 'ascii'} and dec_codecs <= {'utf-8', 'ascii'}
                                                                            and ('utf-8' in enc_codecs) == ('utf-8' in dec_codecs)):
             p9.append('text is encoded with %s but decoded with %s' % (sorted(enc_codecs), sorted(dec_codecs)))
+        if not undecided:
+            p9 = [x for x in p9 if 'removes characters' not in x and 'is not undone' not in x and 'is sliced' not in x]
+        p9 = p9a + p9
         rep.check(not p9, R('O9'), key(lay, 'value-conversions'), loc,
                   'decoder conversions (%s) are the inverse of the encoder\'s' % (', '.join(sorted(dec_codecs)) or 'none'), '; '.join(sorted(set(p9))))
         # loops: O6 / O7 / O8 -------------------------------------------------
@@ -339,6 +347,11 @@ def check_wire(lx: LayoutExtractor, rep, prefix='C02'):
         else:
             rep.check(lay.type_const == want, R('L1'), key(lay, 'type'), loc, 'type code %02XH' % want,
                       'type code is %s, standard: %02XH (%s)' % ('%02XH' % lay.type_const if isinstance(lay.type_const, int) else lay.type_const, want, spec['clause']))
+        # L5: converse direction (values): a conformant encoding of a text field -- the value NUL-padded to the field
+        # width, or exactly as long as its length field says -- decodes to that value
+        p5, _und = conversion_round_trips(lx, lay)
+        rep.check(not p5, R('L5'), key(lay, 'text-values'), loc, 'text fields decode to the value that was encoded',
+                  '; '.join(p5))
         # L2
         p2 = []
         enc = list(lay.enc)
@@ -450,6 +463,112 @@ def check_wire(lx: LayoutExtractor, rep, prefix='C02'):
               'transfer syntax sub-items are not looped over')
     pd = lx.layout(classes['PDataTfPDU'])
     loops = [d for d in pd.dec if d[0] == 'v' and d[1] == 'loop']
-    rep.check(len(loops) == 1 and loops[0][2].kind == 'counted' and loops[0][2].counter_ok, R('L4'),
-              key(pd, 'several-pdvs'), pd.cls.loc(), 'any number of PDVs, delimited by the PDU length',
-              'PDV items are not looped over up to the PDU length')
+    okpd = len(loops) == 1 and loops[0][2].kind == 'counted' and loops[0][2].counter_ok
+    why = 'PDV items are not looped over up to the PDU length'
+    if okpd:
+        # the bytes the loop may consume are exactly the value of the PDU-length field (PS3.8 9.3.5: the length counts
+        # the PDV items, not the 6 header bytes)
+        lenfields = [d[4] for d in pd.dec if d[0] == 'f' and d[1] in 'IL' and d[4] != '_']
+        bnd = loops[0][2].bound
+        if not lenfields or bnd != Affine.sym(('name', lenfields[-1])):
+            okpd = False
+            why = 'the PDV loop consumes %s bytes, the PDU-length field %s delimits exactly its own value' % (bnd, lenfields[-1:] or '?')
+    rep.check(okpd, R('L4'), key(pd, 'several-pdvs'), pd.cls.loc(), 'any number of PDVs, delimited by the PDU length', why)
+
+
+_TEXT_SAMPLES = ['', 'A', 'AB ', ' AB', 'a.b', '1.2.840.10008.1.1', 'ABCDEFGHIJKLMNO', 'ABCDEFGHIJKLMNOP', 'ABCDEFGHIJKLMNOPQRSTUVWXYZ0123456',
+                 'jos\u00e9']
+
+
+def conversion_round_trips(lx: LayoutExtractor, lay: CodecLayout):
+    """-> (problems, undecided): for every attribute that is converted on its way to / from the wire, fold
+    constructor(decoder(pad(encoder(value)))) at sample values and compare with the value."""
+    import ast as _ast
+    from .arith import CannotEvaluate, eval_value
+    from .srcmodel import norm as _norm
+    c = lay.cls
+    problems: List[str] = []
+    undecided = False
+    encc = dict(lx.enc_conv.get(c.name, {}))
+    for k in c.mro()[1:]:
+        for a_, t_ in lx.enc_conv.get(k.name, {}).items():
+            encc.setdefault(a_, t_)
+    decc = lx.dec_conv.get(c.name, {})
+    # attributes and the width of the fixed field that carries them
+    carried: Dict[str, Optional[int]] = {}
+    for e in lay.enc:
+        if e[0] == 'f' and e[4][0] == 'attr' and e[1] == 's':
+            carried[e[4][1]] = e[2]
+        elif e[0] == 'v' and e[1] in ('enc', 'bytes') and not any(d[0] == 'v' and d[1] in ('child', 'loop') and
+                                                                   attr_of_name(lay, d[3]) == e[2] for d in lay.dec):
+            carried.setdefault(e[2], None)
+            if e[1] == 'enc':
+                encc.setdefault(e[2], 'self.%s.encode()' % e[2])
+    init = c.find_method('__init__')
+    inv = {a_: p_ for p_, a_ in lay.ctor_map.items()}
+    for attr, width in sorted(carried.items()):
+        E = encc.get(attr, 'self.%s' % attr)
+        param = inv.get(attr)
+        if param is None or param not in decc:
+            continue
+        term, root = decc[param]
+        if root is None:
+            continue
+        D = term.replace(root, 'RAW')
+        S = param
+        if init is not None:
+            for n in _ast.walk(init.node):
+                if isinstance(n, _ast.Assign) and len(n.targets) == 1 and _norm(n.targets[0]) == 'self.%s' % attr:
+                    S = _norm(n.value)
+        try:
+            Ee, De, Se = (_ast.parse(x, mode='eval') for x in (E, D, S))
+        except SyntaxError:
+            undecided = True
+            continue
+        # the attribute holds text or bytes: whichever the encoder's expression accepts
+        kinds = []
+        for conv in (lambda x: x, lambda x: x.encode('utf-8')):
+            try:
+                eval_value(Ee, {'self.%s' % attr: conv('A')})
+                kinds.append(conv)
+            except CannotEvaluate:
+                continue
+            except Exception:
+                continue
+        if not kinds:
+            undecided = True
+            continue
+        conv = kinds[0]
+        for sample in _TEXT_SAMPLES:
+            A = conv(sample)
+            if width is not None and len(sample.encode('utf-8')) > width:
+                continue       # longer than the field: out of range for this attribute
+            try:
+                B = eval_value(Ee, {'self.%s' % attr: A})
+            except CannotEvaluate:
+                undecided = True
+                break
+            except (UnicodeError, ValueError):
+                continue       # not a value this field can carry
+            if not isinstance(B, bytes):
+                undecided = True
+                break
+            if width is not None:
+                if len(B) > width:
+                    continue   # longer than the field: out of range
+                B = B.ljust(width, b'\0')
+            try:
+                P = eval_value(De, {'RAW': B})
+                A2 = eval_value(Se, {param: P})
+            except CannotEvaluate:
+                undecided = True
+                break
+            except Exception as exc:
+                problems.append('self.%s = %r: the decoder\'s conversion %s raises %s on the bytes the encoder wrote'
+                                % (attr, A, D, type(exc).__name__))
+                continue
+            if A2 != A or type(A2) is not type(A) and not (isinstance(A2, str) and isinstance(A, str)):
+                problems.append('self.%s = %r comes back as %r (encoder %s%s, decoder %s)'
+                                % (attr, A, A2, E, ', %d-byte field' % width if width else '', D))
+                break
+    return problems, undecided
